@@ -69,6 +69,24 @@ CLAIMED = {
         'payload decoding abstracted as in C06.',
    technique='Coq proof (state-machine invariant by induction over call sequences) + correspondence check on op sequences',
    ref='DESIGN.md section 6 C07'),
+ 'C02': dict(
+   text='PARTIAL proof. Proved and re-checked against the source-regenerated Gen files every run: every table vp8.rs decodes with equals the normative table (coefficient '
+        'probabilities and update probabilities, key-frame mode trees/probabilities incl. the 10x10x9 sub-block contexts, token tree, categories, bands, zig-zag, DC/AC quantisers) '
+        'modulo an explicit bijective renumbering; scalar kernels (avg2/avg3, loop-filter clamps and conversions) equal the reference forms. The interleaved parsing and the '
+        'workspace/border bookkeeping are NOT proved: they are covered by whole-frame correspondence implementation = Spec.VP8.decode (executable Coq transcription of libwebp, '
+        'validated against compiled libwebp each run) on generated key frames, plus native comparison with libwebp.',
+   note='Trusted: Coq kernel, rs2v translator, Spec/VP8.v + Spec/VP8Tables.v (hand transcription of libwebp 1.3.1; RFC 6386 text unavailable offline) validated by c02spec, extraction, '
+        'the key-frame writer of the harness. Excluded from valid: filter levels leaving [0,63] before deltas, reserved colour-space bit, coefficients outside the 16-bit reference range.',
+   technique='Coq proof (tables + kernels over source-regenerated definitions) + whole-frame correspondence against extracted Coq spec',
+   ref='DESIGN.md section 6 C02'),
+ 'C01': dict(
+   text='PARTIAL proof. Proved and re-checked against source-regenerated definitions every run: the decoder\'s tables (120-entry distance map, code-length order, alphabet sizes) and '
+        'transform kernels (Average2, ClampAddSubtractFull/Half, ColorTransformDelta mod 256, sub-sampled size) equal the lossless specification\'s for all byte inputs and cannot overflow. '
+        'The structural refinement (bit reservoir, two-level prefix tables, in-place transforms) is NOT proved: it is decided each run by whole-stream correspondence implementation = '
+        'Spec.VP8L.decode (executable Coq transcription of the specification, validated against libwebp each run) on seeded random legal streams covering every feature the property names.',
+   note='Trusted: Coq kernel, rs2v translator, Spec/VP8L.v (hand transcription of the specification), extraction, the legal-stream generator of the harness (checked: libwebp accepts every stream).',
+   technique='Coq proof (tables + kernels over source-regenerated definitions) + whole-stream correspondence against extracted Coq spec',
+   ref='DESIGN.md section 6 C01'),
 }
 PENDING = {}
 
